@@ -20,11 +20,15 @@ Record case10 := Case10 {
   k_reply : oreply;
   k_ranges : list (N * N * N);       (* proxy log: range reads (from, to, headers returned) *)
   k_gets : list N;                   (* proxy log: Get(hash) calls *)
-  k_disk : list N;                   (* datastore under the real store: heights of the headers whose
-                                        keys (by hash or by height) were read while the request was
-                                        served, in order; 0 = a read that found nothing *)
+  k_disk : list (N * bool);          (* datastore under the real store: the keys (by hash or by height) read
+                                        while the request was served, in order, each as (height of the
+                                        header the key belongs to, or 0 for a key of no header this chain
+                                        ever had; whether the read found something) *)
   k_o1 : N;                          (* proxy log: number of HasAt/Head/Tail/Height/Has calls *)
-  k_other : N                        (* proxy log: Append/DeleteRange/OnDelete calls *)
+  k_other : N;                       (* proxy log: Append/DeleteRange/OnDelete calls *)
+  k_hook : ckind;                    (* the store was changed (headers appended / pruned) right after the
+                                        first call of this kind returned to the server ... *)
+  k_st2 : option store               (* ... and this is its content from then on (None: it never changed) *)
 }.
 
 (** compact rendering of a hash-linked run, as the harness builds them: consecutive
@@ -64,11 +68,27 @@ Definition touched (st : store) (cs : list call) : list N :=
   heights_read cs
   ++ map (fun id => match get_hash st id with Some h => h_height h | None => 0 end) (get_calls cs).
 
+Definition as_found (l : list N) : list (N * bool) := map (fun n => (n, true)) l.
+
 (** the model's observation for the inputs of a case *)
 Definition model10 (st : store) (f : fault) (rq : req) : case10 :=
   let '(r, cs) := handle f st rq in
-  Case10 st f rq (obs_reply r) (obs_ranges cs) (get_calls cs) (touched st cs)
-         (N.of_nat (length (filter is_o1 cs))) 0.
+  Case10 st f rq (obs_reply r) (obs_ranges cs) (get_calls cs) (as_found (touched st cs))
+         (N.of_nat (length (filter is_o1 cs))) 0 KGet None.
+
+(** the store content each call sees when it changes once, after the first [hook] call *)
+Definition ckind_eqb (a b : ckind) : bool :=
+  match a, b with
+  | KHasAt, KHasAt | KHead, KHead | KTail, KTail | KGetRange, KGetRange | KGet, KGet => true
+  | _, _ => false
+  end.
+Definition env2 (hook : ckind) (st1 st2 : store) : env :=
+  fun hist => if existsb (ckind_eqb hook) hist then st2 else st1.
+
+Definition model10_d (st1 : store) (hook : ckind) (st2 : store) (f : fault) (rq : req) : case10 :=
+  let '(r, cs) := handle_d f (env2 hook st1 st2) rq in
+  Case10 st1 f rq (obs_reply r) (obs_ranges cs) (get_calls cs) (as_found (touched st1 cs))
+         (N.of_nat (length (filter is_o1 cs))) 0 hook (Some st2).
 
 Definition mem (x : N) (l : list N) : bool := existsb (N.eqb x) l.
 Fixpoint dedup (l : list N) : list N :=
@@ -98,15 +118,12 @@ Fixpoint merge_r (l : list (N * N * N)) : list (N * N * N) :=
   end.
 Definition norm_ranges (l : list (N * N * N)) : list (N * N * N) := merge_r (sort_r l).
 
-Definition agree10 (c : case10) : bool :=
-  let m := model10 (k_st c) (k_fault c) (k_req c) in
-  wf_storeb (k_st c)
-  && oreply_eqb (k_reply m) (k_reply c)
+Definition agree_with (m c : case10) : bool :=
+  oreply_eqb (k_reply m) (k_reply c)
   && list_eqb triple_eqb (norm_ranges (k_ranges m)) (norm_ranges (k_ranges c))
   && list_eqb N.eqb (k_gets m) (k_gets c)
-  (* caches and the write batch may spare the datastore a read, so: subset; a miss (0)
-     reads no header *)
-  && forallb (fun n => (n =? 0) || mem n (k_disk m)) (k_disk c).
+  (* caches and the write batch may spare the datastore a read, so: subset; a miss reads no header *)
+  && forallb (fun d => negb (snd d) || mem (fst d) (map fst (k_disk m))) (k_disk c).
 
 (** ** the property, as a check of an observation (no use of [handle]) *)
 
@@ -150,7 +167,8 @@ Definition ok_reads (st : store) (o a : N) (ranges : list (N * N * N)) (gets : l
 
 (** what reaches the datastore stays inside [o, o+a) too: at most min(a, 64) distinct heights *)
 Definition nonzero (n : N) : bool := negb (n =? 0).
-Definition ok_disk (o a : N) (disk : list N) : bool :=
+Definition ok_disk (o a : N) (reads : list (N * bool)) : bool :=
+  let disk := map fst reads in
   forallb (fun n => (n =? 0) || ((o <=? n) && (n <? o + a))) disk
   && (N.of_nat (length (dedup (filter nonzero disk))) + N.of_nat (length (filter (N.eqb 0) disk))
       <=? N.min a max_req).
@@ -158,7 +176,7 @@ Definition ok_disk (o a : N) (disk : list N) : bool :=
 Definition no_reads (c : case10) : bool :=
   match k_ranges c, k_gets c, k_disk c with [], [], [] => true | _, _, _ => false end.
 
-Definition ok10 (c : case10) : bool :=
+Definition ok10_s (c : case10) : bool :=
   let st := k_st c in
   let r := k_reply c in
   let healthy := match k_fault c with FNone => true | _ => false end in
@@ -168,7 +186,7 @@ Definition ok10 (c : case10) : bool :=
      | RHash id _ =>
        match k_ranges c with [] => true | _ => false end
        && forallb (N.eqb id) (k_gets c) && (N.of_nat (length (k_gets c)) <=? 1)
-       && (N.of_nat (length (dedup (k_disk c))) <=? 1)
+       && (N.of_nat (length (dedup (map fst (k_disk c)))) <=? 1)
        && match stored st id with
           | Some _ => oreply_eqb r (OOk [id]) || (negb healthy && is_refusal r)
           | None => is_refusal r
@@ -189,6 +207,64 @@ Definition ok10 (c : case10) : bool :=
                    && (tail_h st <=? o) && (o <=? head_h st))
              || is_ok r)
      end.
+
+(** ** the same check when the store changed during the request: "the store" is either content *)
+
+Definition id_at_all (st : store) (n : N) : option N := option_map h_id (get_height st n).
+Definition ids_match (st : store) (o : N) (ids : list N) : bool :=
+  list_eqb (option_eqb N.eqb) (map Some ids) (map (fun j => id_at_all st (o + N.of_nat j)) (seq 0 (length ids))).
+
+(** OK frames: the headers at o, o+1, ... of one of the two contents; at most [a];
+    fewer only when ending at the head of one of them *)
+Definition ok_shape_d (st1 st2 : store) (o a : N) (r : oreply) : bool :=
+  match r with
+  | OReset | ONotFound => true
+  | OOk ids =>
+    let k := length ids in
+    negb (Nat.eqb k 0) && (N.of_nat k <=? a)
+    && (ids_match st1 o ids || ids_match st2 o ids)
+    && ((N.of_nat k =? a) || (o + N.of_nat k - 1 =? head_h st1) || (o + N.of_nat k - 1 =? head_h st2))
+  | _ => false
+  end.
+
+Definition head_is (r : oreply) (st : store) : bool :=
+  match head_id st with Some hid => oreply_eqb r (OOk [hid]) | None => false end.
+Definition has_id (st : store) (id : N) : bool := match stored st id with Some _ => true | None => false end.
+
+Definition ok10_d (c : case10) (st2 : store) : bool :=
+  let st1 := k_st c in
+  let r := k_reply c in
+  let healthy := match k_fault c with FNone => true | _ => false end in
+  is_answer r && (k_other c =? 0) && (k_o1 c <=? 8)
+  && match k_req c with
+     | RInvalid => is_refusal r && no_reads c
+     | RHash id _ =>
+       match k_ranges c with [] => true | _ => false end
+       && forallb (N.eqb id) (k_gets c) && (N.of_nat (length (k_gets c)) <=? 1)
+       && (N.of_nat (length (dedup (map fst (k_disk c)))) <=? 1)
+       && ((oreply_eqb r (OOk [id]) && (has_id st1 id || has_id st2 id))
+           || (is_refusal r && (negb healthy || negb (has_id st1 id) || negb (has_id st2 id))))
+     | ROrigin o a =>
+       if o =? 0 then
+         no_reads c
+         && (head_is r st1 || head_is r st2
+             || (is_refusal r && (negb healthy || (a =? 0) || negb (nonempty st1) || negb (nonempty st2))))
+       else
+         ok_shape_d st1 st2 o a r
+         && ok_reads st1 o a (k_ranges c) (k_gets c) && ok_reads st2 o a (k_ranges c) (k_gets c)
+         && ok_disk o a (k_disk c)
+     end.
+
+Definition agree10 (c : case10) : bool :=
+  match k_st2 c with
+  | None => wf_storeb (k_st c) && agree_with (model10 (k_st c) (k_fault c) (k_req c)) c
+  | Some st2 =>
+    wf_storeb (k_st c) && wf_storeb st2
+    && agree_with (model10_d (k_st c) (k_hook c) st2 (k_fault c) (k_req c)) c
+  end.
+
+Definition ok10 (c : case10) : bool :=
+  match k_st2 c with None => ok10_s c | Some st2 => ok10_d c st2 end.
 
 Definition chk10 (c : case10) : bool * bool * N := (agree10 c, ok10 c, 0).
 
@@ -281,9 +357,12 @@ Proof.
   rewrite (H x) by auto. apply IH. intros y Hy. apply H. auto.
 Qed.
 
-Lemma disk_ok_b o a rd : 1 <= o -> reads_ok o a rd -> ok_disk o a (rd ++ []) = true.
+Lemma as_found_fst l : map fst (as_found l) = l.
+Proof. unfold as_found. rewrite map_map. cbn. apply map_id. Qed.
+
+Lemma disk_ok_b o a rd : 1 <= o -> reads_ok o a rd -> ok_disk o a (as_found (rd ++ [])) = true.
 Proof.
-  intros Ho (Hin & Hlen & _). rewrite app_nil_r. unfold ok_disk.
+  intros Ho (Hin & Hlen & _). rewrite app_nil_r. unfold ok_disk. rewrite as_found_fst.
   apply andb_true_iff. split.
   - apply forallb_forall. intros n Hn. specialize (Hin n Hn). lia.
   - rewrite (filter_none (N.eqb 0) rd).
@@ -293,6 +372,9 @@ Qed.
 
 Theorem model10_ok : forall st f rq, wf_store st -> req_bounded rq -> ok10 (model10 st f rq) = true.
 Proof.
+  intros st f rq wf Hb. unfold ok10. replace (k_st2 (model10 st f rq)) with (@None store) by (unfold model10; destruct (handle f st rq); reflexivity).
+  revert st f rq wf Hb.
+  change (forall st f rq, wf_store st -> req_bounded rq -> ok10_s (model10 st f rq) = true).
   intros st f rq wf Hb. unfold model10.
   pose proof (handle_total f st rq) as Htot.
   destruct rq as [o a|id a|].
@@ -302,12 +384,12 @@ Proof.
     rewrite handle_fst_snd in *. cbn [fst snd] in *.
     destruct (handle_range_log f st o (wrap64 (o + a))) as [Hgets Ho1].
     set (hr := handle_range f st o (wrap64 (o + a))) in *.
-    unfold ok10, touched. cbn [k_st k_reply k_fault k_req k_other k_o1 k_ranges k_gets k_disk].
+    unfold ok10_s, touched. cbn [k_st k_reply k_fault k_req k_other k_o1 k_ranges k_gets k_disk].
     rewrite (obs_is_answer _ Htot). rewrite Hgets. cbn [andb N.eqb map].
     replace (N.of_nat (length (filter is_o1 (snd hr))) <=? 8) with true by lia. cbn [andb].
     destruct (N.eqb_spec o 0) as [->|Ho0].
     + (* head request *)
-      subst hr. unfold no_reads, obs_ranges. cbn [k_ranges k_gets k_disk].
+      subst hr. unfold no_reads, obs_ranges, as_found. cbn [k_ranges k_gets k_disk].
       unfold handle_range. rewrite N.add_0_l, wrap64_small by exact Ha.
       destruct (N.leb_spec a 0) as [Hz|Hpos].
       * assert (a = 0) as -> by lia. cbn. destruct (head_id st); [rewrite orb_true_r|]; reflexivity.
@@ -332,12 +414,112 @@ Proof.
       destruct (N.ltb_spec max_req a); [lia|]. cbn [orb].
       destruct (N.ltb_spec o (tail_h st)); [lia|]. destruct (N.ltb_spec (head_h st) o); [lia|]. reflexivity.
   - cbn [handle handle_hash].
-    unfold ok10, touched. cbn [k_st k_reply k_fault k_req k_other k_o1 k_ranges k_gets k_disk obs_ranges range_calls map get_calls
+    unfold ok10_s, touched, as_found. cbn [k_st k_reply k_fault k_req k_other k_o1 k_ranges k_gets k_disk obs_ranges range_calls map get_calls
                                filter is_o1 length heights_read concat app dedup mem existsb].
     cbn [forallb andb N.of_nat N.eqb N.leb].
     unfold stored, get_hash.
     destruct (find (fun h => h_id h =? id) (all_hdrs st)) as [h|] eqn:E.
     + apply find_some in E as [_ E]. destruct f; cbn; rewrite ?E, ?N.eqb_refl; reflexivity.
     + destruct f; cbn; rewrite ?N.eqb_refl; reflexivity.
+  - reflexivity.
+Qed.
+
+(** ** the tie, for a store that changes during the request *)
+
+Lemma env2_cases hook st1 st2 hist : env2 hook st1 st2 hist = st1 \/ env2 hook st1 st2 hist = st2.
+Proof. unfold env2. destruct (existsb (ckind_eqb hook) hist); auto. Qed.
+
+Lemma env2_wf hook st1 st2 : wf_store st1 -> wf_store st2 -> forall hist, wf_store (env2 hook st1 st2 hist).
+Proof. intros H1 H2 hist. destruct (env2_cases hook st1 st2 hist) as [-> | ->]; assumption. Qed.
+
+Lemma ids_match_ok S o l :
+  (forall j, (j < length l)%nat ->
+     exists h, nth_error l j = Some h /\ get_height S (o + N.of_nat j) = Some h
+               /\ h_height h = o + N.of_nat j /\ In h (all_hdrs S)) ->
+  ids_match S o (map h_id l) = true.
+Proof.
+  intro H. unfold ids_match. rewrite map_length.
+  apply (list_eqb_map_seq (fun j => id_at_all S (o + N.of_nat j)) l 0).
+  intros j Hj. destruct (H j Hj) as (h & Hn & Hg & _). exists h. split; [exact Hn|].
+  cbn [Nat.add]. unfold id_at_all. rewrite Hg. reflexivity.
+Qed.
+
+Lemma shape_ok_d hook st1 st2 o a r :
+  range_answer_ok_d (env2 hook st1 st2) o a r -> ok_shape_d st1 st2 o a (obs_reply r) = true.
+Proof.
+  intros [->|[->|(l & S & -> & HS & H1 & Ha & Hnth & Hlast)]]; [reflexivity..|].
+  cbn [obs_reply ok_shape_d]. rewrite map_length.
+  assert (ids_match st1 o (map h_id l) || ids_match st2 o (map h_id l) = true) as ->.
+  { pose proof (ids_match_ok S o l Hnth) as Hm.
+    destruct HS as [-> | ->].
+    - destruct (env2_cases hook st1 st2 [KHasAt]) as [E|E]; rewrite E in Hm; rewrite Hm; [reflexivity | apply orb_true_r].
+    - destruct (env2_cases hook st1 st2 [KHasAt; KHead]) as [E|E]; rewrite E in Hm; rewrite Hm; [reflexivity | apply orb_true_r]. }
+  destruct (N.lt_ge_cases (N.of_nat (length l)) a) as [Hlt|Hge]; [|lia].
+  destruct (Hlast Hlt) as (hd & Hhd & Ehd).
+  assert (h_height hd = head_h (env2 hook st1 st2 [KHasAt])) as Eh by (unfold head_h; rewrite Hhd; reflexivity).
+  destruct (env2_cases hook st1 st2 [KHasAt]) as [E|E]; rewrite E in Eh; lia.
+Qed.
+
+Lemma handle_range_d_log f e from to :
+  get_calls (snd (handle_range_d f e from to)) = []
+  /\ (length (filter is_o1 (snd (handle_range_d f e from to))) <= 2)%nat.
+Proof.
+  unfold handle_range_d.
+  destruct (to <=? from); [cbn; split; [reflexivity|lia]|].
+  destruct (from =? 0); [cbn; split; [reflexivity|lia]|].
+  destruct (max_req <? sub64 to from); [cbn; split; [reflexivity|lia]|].
+  destruct (has_at (e []) (sub64 to 1)).
+  - destruct (serve_range_calls f (e [KHasAt]) from to [CHasAt (sub64 to 1)]) as (rd & n & ->). cbn. split; [reflexivity|lia].
+  - destruct (call_head f (e [KHasAt])) as [hd|x|]; [|cbn; split; [reflexivity|lia]..].
+    destruct (h_height hd <? from); [cbn; split; [reflexivity|lia]|].
+    destruct (sub64 to 1 <=? h_height hd); [cbn; split; [reflexivity|lia]|].
+    destruct (serve_range_calls f (e [KHasAt; KHead]) from (wrap64 (h_height hd + 1)) [CHasAt (sub64 to 1); CHead]) as (rd & n & ->).
+    cbn. split; [reflexivity|lia].
+Qed.
+
+Theorem model10_d_ok : forall st1 hook st2 f rq, wf_store st1 -> wf_store st2 -> req_bounded rq ->
+  ok10 (model10_d st1 hook st2 f rq) = true.
+Proof.
+  intros st1 hook st2 f rq wf1 wf2 Hb. unfold ok10.
+  replace (k_st2 (model10_d st1 hook st2 f rq)) with (Some st2)
+    by (unfold model10_d; destruct (handle_d f (env2 hook st1 st2) rq); reflexivity).
+  unfold model10_d. set (e := env2 hook st1 st2).
+  pose proof (handle_d_total f e rq) as Htot.
+  pose proof (env2_wf hook st1 st2 wf1 wf2) as wfe. fold e in wfe.
+  destruct rq as [o a|id a|].
+  - destruct Hb as [Ho Ha].
+    pose proof (origin_bounded_calls_d f e o a Ho Ha) as [Hlen Hargs].
+    pose proof (origin_bounded_reads_d f e o a wfe Ho Ha) as Hreads.
+    rewrite handle_d_fst_snd in *. cbn [fst snd] in *.
+    destruct (handle_range_d_log f e o (wrap64 (o + a))) as [Hgets Ho1].
+    set (hr := handle_range_d f e o (wrap64 (o + a))) in *.
+    unfold ok10_d, touched. cbn [k_st k_reply k_fault k_req k_other k_o1 k_ranges k_gets k_disk].
+    rewrite (obs_is_answer _ Htot). rewrite Hgets. cbn [andb N.eqb map].
+    replace (N.of_nat (length (filter is_o1 (snd hr))) <=? 8) with true by lia. cbn [andb].
+    destruct (N.eqb_spec o 0) as [->|Ho0].
+    + subst hr. unfold no_reads, obs_ranges, as_found. cbn [k_ranges k_gets k_disk].
+      unfold handle_range_d. rewrite N.add_0_l, wrap64_small by exact Ha.
+      destruct (N.leb_spec a 0) as [Hz|Hpos].
+      * assert (a = 0) as -> by lia. cbn. rewrite !orb_true_r. reflexivity.
+      * cbn [N.eqb]. replace (e []) with st1 by reflexivity.
+        unfold handle_head, call_head, head_is, head_id. cbn [snd range_calls map fst heights_read concat app].
+        destruct f; cbn [fst status fault_err obs_reply].
+        -- unfold nonempty, head_of. destruct (s_chain st1) as [|t r]; cbn; [rewrite !orb_true_r; reflexivity|].
+           rewrite N.eqb_refl. reflexivity.
+        -- cbn. rewrite !orb_true_r. reflexivity.
+        -- cbn. rewrite !orb_true_r. reflexivity.
+    + pose proof (origin_reply_shape_d f e o a wfe ltac:(lia) Ho Ha) as Hshape.
+      rewrite handle_d_fst_snd in Hshape. cbn [fst] in Hshape. fold hr in Hshape.
+      rewrite (shape_ok_d hook st1 st2 o a _ Hshape). cbn [andb].
+      unfold obs_ranges. rewrite (reads_ok_b st1 o a _ Hlen Hargs), (reads_ok_b st2 o a _ Hlen Hargs). cbn [andb].
+      apply (disk_ok_b o a _ ltac:(lia) Hreads).
+  - cbn [handle_d handle_hash]. replace (e []) with st1 by reflexivity.
+    unfold ok10_d, touched, as_found. cbn [k_st k_reply k_fault k_req k_other k_o1 k_ranges k_gets k_disk obs_ranges range_calls map get_calls
+                                 filter is_o1 length heights_read concat app dedup mem existsb].
+    cbn [forallb andb N.of_nat N.eqb N.leb].
+    unfold has_id, stored, get_hash.
+    destruct (find (fun h => h_id h =? id) (all_hdrs st1)) as [h|] eqn:E.
+    + apply find_some in E as [_ E]. destruct f; cbn; rewrite ?E, ?N.eqb_refl; cbn; rewrite ?orb_true_r; reflexivity.
+    + destruct f; cbn; rewrite ?N.eqb_refl; cbn; rewrite ?orb_true_r; reflexivity.
   - reflexivity.
 Qed.
